@@ -1,8 +1,636 @@
 import GModel.Events
-/-! # C03 — transition events are a faithful, complete change-log (theorems below) -/
+/-!
+# C03 — transition events are a faithful, complete change-log of the site states
+
+Property theorems (statements are fixed; helper lemmas live above them):
+
+* `eventsAlgo_eq_spec`   the table the code builds (change frames of both histories,
+                         `np.union1d`, fancy-index rows) is the lock-step specification
+* `mem_eventsSpec_iff`   a row exists exactly for the frames at which the site or the
+                         inner site changes, and carries (t, s_t, s_{t+1}, i_t, i_{t+1})
+* `eventsSpec_times_strict`  at most one row per frame, rows in time order
+* `replay_reconstructs`  replaying the rows from the first-frame state rebuilds both histories
+* `ffillAlgo_eq_spec`, `bfillAlgo_eq_spec`, `ffillSpec_get`, `bfillSpec_get`
+                         previous / next site views
+* `Roll.*`               the original `np.roll` formulation: right when a change exists,
+                         `IndexError` witness otherwise (history of defect D4)
+-/
 namespace G.C03
 open G.Events
 
-theorem changes_nil (t : Nat) : changes t [] = [] := by simp [changes]
+/-! ## the event table -/
+
+theorem changes_ge : ∀ (xs : List Int) (t k : Nat), k ∈ changes t xs → t ≤ k := by
+  intro xs
+  induction xs with
+  | nil => intro t k h; simp [changes] at h
+  | cons a r ih =>
+    intro t k h
+    cases r with
+    | nil => simp [changes] at h
+    | cons b rest =>
+      simp only [changes, List.mem_append] at h
+      rcases h with h | h
+      · split at h
+        · simp at h; omega
+        · simp at h
+      · have := ih (t + 1) k h
+        omega
+
+theorem ins_of_lt (k : Nat) (l : List Nat) (h : ∀ x ∈ l, k < x) : ins k l = k :: l := by
+  cases l with
+  | nil => rfl
+  | cons x xs =>
+    have : k < x := h x (by simp)
+    simp [ins, this]
+
+theorem ins_head (k : Nat) (l : List Nat) : ins k (k :: l) = k :: l := by
+  simp [ins]
+
+theorem mem_ins (k x : Nat) (l : List Nat) : x ∈ ins k l ↔ x = k ∨ x ∈ l := by
+  induction l with
+  | nil => simp [ins]
+  | cons y ys ih =>
+    unfold ins
+    split
+    · simp
+    · split
+      · subst_vars; simp
+      · simp only [List.mem_cons, ih]; exact or_left_comm
+
+theorem mem_union (x : Nat) (xs ys : List Nat) : x ∈ union xs ys ↔ x ∈ xs ∨ x ∈ ys := by
+  induction xs with
+  | nil => simp [union]
+  | cons a as ih =>
+    have : union (a :: as) ys = ins a (union as ys) := rfl
+    rw [this, mem_ins, ih]; simp [or_assoc]
+
+theorem union_cons_left (a : Nat) (as ys : List Nat) : union (a :: as) ys = ins a (union as ys) := rfl
+
+theorem union_cons_right (t : Nat) (C D : List Nat) (hC : ∀ x ∈ C, t < x) :
+    union C (t :: D) = t :: union C D := by
+  induction C with
+  | nil => rfl
+  | cons c cs ih =>
+    have h1 : union (c :: cs) (t :: D) = ins c (union cs (t :: D)) := rfl
+    have h2 : union (c :: cs) D = ins c (union cs D) := rfl
+    have hc : t < c := hC c (by simp)
+    rw [h1, h2, ih (fun x hx => hC x (by simp [hx]))]
+    have h3 : ¬ c < t := by omega
+    have h4 : ¬ c = t := by omega
+    simp [ins, h3, h4]
+
+theorem events_gen : ∀ (s i ps pi : List Int), s.length = i.length → ps.length = pi.length →
+    (union (changes ps.length s) (changes ps.length i)).map (rowAt (ps ++ s) (pi ++ i))
+      = eventsSpec ps.length s i := by
+  intro s
+  induction s with
+  | nil =>
+    intro i ps pi h _
+    cases i with
+    | nil => simp [changes, union, eventsSpec]
+    | cons _ _ => simp at h
+  | cons a r ih =>
+    intro i ps pi h hp
+    cases i with
+    | nil => simp at h
+    | cons x ir =>
+      cases r with
+      | nil =>
+        cases ir with
+        | nil => simp [changes, union, eventsSpec]
+        | cons _ _ => simp at h
+      | cons b rest =>
+        cases ir with
+        | nil => simp at h
+        | cons y irest =>
+          have hlen : (b :: rest).length = (y :: irest).length := by simpa using h
+          have hp' : (ps ++ [a]).length = (pi ++ [x]).length := by simp [hp]
+          have IH := ih (y :: irest) (ps ++ [a]) (pi ++ [x]) hlen hp'
+          have e1 : (ps ++ [a]).length = ps.length + 1 := by simp
+          have e2 : ps ++ [a] ++ b :: rest = ps ++ a :: b :: rest := by simp
+          have e3 : pi ++ [x] ++ y :: irest = pi ++ x :: y :: irest := by simp
+          rw [e1, e2, e3] at IH
+          have hC : ∀ k ∈ changes (ps.length + 1) (b :: rest), ps.length < k :=
+            fun k hk => changes_ge _ _ _ hk
+          have hD : ∀ k ∈ changes (ps.length + 1) (y :: irest), ps.length < k :=
+            fun k hk => changes_ge _ _ _ hk
+          have hU : ∀ k ∈ union (changes (ps.length + 1) (b :: rest)) (changes (ps.length + 1) (y :: irest)),
+              ps.length < k := by
+            intro k hk
+            rcases (mem_union _ _ _).mp hk with hk | hk
+            · exact hC k hk
+            · exact hD k hk
+          have hrow : rowAt (ps ++ a :: b :: rest) (pi ++ x :: y :: irest) ps.length
+              = ⟨ps.length, a, b, x, y⟩ := by
+            simp [rowAt, List.getD_eq_getElem?_getD, hp]
+          simp only [changes, eventsSpec]
+          by_cases hab : a ≠ b <;> by_cases hxy : x ≠ y
+          · rw [if_pos hab, if_pos hxy, if_pos (Or.inl hab)]
+            simp only [List.cons_append, List.nil_append]
+            rw [union_cons_left, union_cons_right _ _ _ hC, ins_head, List.map_cons, hrow, IH]
+          · rw [if_pos hab, if_neg hxy, if_pos (Or.inl hab)]
+            simp only [List.cons_append, List.nil_append]
+            rw [union_cons_left, ins_of_lt _ _ hU, List.map_cons, hrow, IH]
+          · rw [if_neg hab, if_pos hxy, if_pos (Or.inr hxy)]
+            simp only [List.cons_append, List.nil_append]
+            rw [union_cons_right _ _ _ hC, List.map_cons, hrow, IH]
+          · rw [if_neg hab, if_neg hxy, if_neg (by simp [hab, hxy])]
+            simp only [List.nil_append]
+            exact IH
+
+/-- **C03 (table = specification)**: for histories of equal length the rows built by the
+code are exactly the rows of the lock-step specification. -/
+theorem eventsAlgo_eq_spec (s i : List Int) (h : s.length = i.length) :
+    eventsAlgo s i = eventsSpec 0 s i := by
+  have := events_gen s i [] [] h rfl
+  simpa [eventsAlgo] using this
+
+theorem eventsSpec_ge : ∀ (s i : List Int) (t : Nat) (e : Event), e ∈ eventsSpec t s i → t ≤ e.t := by
+  intro s
+  induction s with
+  | nil => intro i t e h; simp [eventsSpec] at h
+  | cons a r ih =>
+    intro i t e h
+    cases r with
+    | nil => simp [eventsSpec] at h
+    | cons b rest =>
+      cases i with
+      | nil => simp [eventsSpec] at h
+      | cons x ir =>
+        cases ir with
+        | nil => simp [eventsSpec] at h
+        | cons y irest =>
+          simp only [eventsSpec, List.mem_append] at h
+          rcases h with h | h
+          · split at h
+            · simp at h; subst h; simp
+            · simp at h
+          · have := ih (y :: irest) (t + 1) e h
+            omega
+
+theorem mem_eventsSpec_gen : ∀ (s i : List Int) (t : Nat) (e : Event), s.length = i.length →
+    (e ∈ eventsSpec t s i ↔ ∃ j, j + 1 < s.length ∧
+       (s.getD j (-1) ≠ s.getD (j + 1) (-1) ∨ i.getD j (-1) ≠ i.getD (j + 1) (-1)) ∧
+       e = ⟨t + j, s.getD j (-1), s.getD (j + 1) (-1), i.getD j (-1), i.getD (j + 1) (-1)⟩) := by
+  intro s
+  induction s with
+  | nil => intro i t e h; simp [eventsSpec]
+  | cons a r ih =>
+    intro i t e h
+    cases i with
+    | nil => simp at h
+    | cons x ir =>
+      cases r with
+      | nil => simp [eventsSpec]
+      | cons b rest =>
+        cases ir with
+        | nil => simp at h
+        | cons y irest =>
+          have hlen : (b :: rest).length = (y :: irest).length := by simpa using h
+          have IH := ih (y :: irest) (t + 1) e hlen
+          simp only [eventsSpec, List.mem_append, IH]
+          constructor
+          · rintro (h1 | ⟨j, hj, hc, he⟩)
+            · split at h1
+              · rename_i hc
+                simp at h1
+                exact ⟨0, by simp, by simpa using hc, by simpa using h1⟩
+              · simp at h1
+            · refine ⟨j + 1, by simpa using hj, by simpa using hc, ?_⟩
+              rw [he]; simp; omega
+          · rintro ⟨j, hj, hc, he⟩
+            cases j with
+            | zero =>
+              left
+              have hc' : a ≠ b ∨ x ≠ y := by simpa using hc
+              rw [if_pos hc']
+              simpa using he
+            | succ j =>
+              right
+              refine ⟨j, by simpa using hj, by simpa using hc, ?_⟩
+              rw [he]; simp; omega
+
+/-- **C03 (exactly the changes)**: a row is in the table iff its frame `t` is a frame at
+which the site or the inner site differs from the next frame, and then it carries the
+states before and after. -/
+theorem mem_eventsSpec_iff (s i : List Int) (h : s.length = i.length) (e : Event) :
+    e ∈ eventsSpec 0 s i ↔
+      (e.t + 1 < s.length ∧
+       (s.getD e.t (-1) ≠ s.getD (e.t + 1) (-1) ∨ i.getD e.t (-1) ≠ i.getD (e.t + 1) (-1)) ∧
+       e = ⟨e.t, s.getD e.t (-1), s.getD (e.t + 1) (-1), i.getD e.t (-1), i.getD (e.t + 1) (-1)⟩) := by
+  rw [mem_eventsSpec_gen s i 0 e h]
+  constructor
+  · rintro ⟨j, hj, hc, he⟩
+    have ht : e.t = j := by rw [he]; simp
+    rw [ht]
+    refine ⟨hj, hc, ?_⟩
+    simpa using he
+  · rintro ⟨hj, hc, he⟩
+    exact ⟨e.t, hj, hc, by simpa using he⟩
+
+/-- **C03 (one row per change)**: row times are strictly increasing, hence no frame has two rows. -/
+theorem eventsSpec_times_strict (s i : List Int) (t : Nat) :
+    ((eventsSpec t s i).map (·.t)).Pairwise (· < ·) := by
+  induction s generalizing i t with
+  | nil => simp [eventsSpec]
+  | cons a r ih =>
+    cases r with
+    | nil => simp [eventsSpec]
+    | cons b rest =>
+      cases i with
+      | nil => simp [eventsSpec]
+      | cons x ir =>
+        cases ir with
+        | nil => simp [eventsSpec]
+        | cons y irest =>
+          have IH := ih (y :: irest) (t + 1)
+          simp only [eventsSpec]
+          split
+          · simp only [List.cons_append, List.nil_append, List.map_cons, List.pairwise_cons]
+            refine ⟨?_, IH⟩
+            intro k hk
+            obtain ⟨e, he, rfl⟩ := List.mem_map.mp hk
+            have := eventsSpec_ge _ _ _ _ he
+            omega
+          · simpa using IH
+
+theorem foldl_noop (T : Nat) : ∀ (rows : List Event) (st : Int × Int), (∀ e ∈ rows, T ≤ e.t) →
+    rows.foldl (fun st e => if e.t < T then (e.s1, e.i1) else st) st = st := by
+  intro rows
+  induction rows with
+  | nil => intro st _; rfl
+  | cons e es ih =>
+    intro st h
+    have h1 : ¬ e.t < T := by have := h e (by simp); omega
+    simp only [List.foldl_cons, if_neg h1]
+    exact ih st (fun e he => h e (by simp [he]))
+
+theorem replay_gen : ∀ (s i : List Int) (a x : Int) (t0 T : Nat), s.length = i.length →
+    T < t0 + (s.length + 1) →
+    (eventsSpec t0 (a :: s) (x :: i)).foldl (fun st e => if e.t < T then (e.s1, e.i1) else st) (a, x)
+      = ((a :: s).getD (T - t0) (-1), (x :: i).getD (T - t0) (-1)) := by
+  intro s
+  induction s with
+  | nil =>
+    intro i a x t0 T h hT
+    have : T - t0 = 0 := by simp at hT; omega
+    simp [eventsSpec, this]
+  | cons b rest ih =>
+    intro i a x t0 T h hT
+    cases i with
+    | nil => simp at h
+    | cons y irest =>
+      have hlen : rest.length = irest.length := by simpa using h
+      simp only [eventsSpec, List.foldl_append]
+      by_cases hle : T ≤ t0
+      · have h0 : T - t0 = 0 := by omega
+        have hA : ∀ e ∈ (if a ≠ b ∨ x ≠ y then [(⟨t0, a, b, x, y⟩ : Event)] else []), T ≤ e.t := by
+          intro e he
+          split at he
+          · simp at he; subst he; simpa using hle
+          · simp at he
+        have hB : ∀ e ∈ eventsSpec (t0 + 1) (b :: rest) (y :: irest), T ≤ e.t := by
+          intro e he
+          have := eventsSpec_ge _ _ _ _ he; omega
+        rw [foldl_noop T _ _ hA, foldl_noop T _ _ hB, h0]
+        simp
+      · have hlt : t0 < T := by omega
+        have hfirst : (if a ≠ b ∨ x ≠ y then [(⟨t0, a, b, x, y⟩ : Event)] else []).foldl
+            (fun st e => if e.t < T then (e.s1, e.i1) else st) (a, x) = (b, y) := by
+          split
+          · simp [hlt]
+          · rename_i hc
+            simp at hc
+            simp [hc.1, hc.2]
+        rw [hfirst, ih irest b y (t0 + 1) T hlen (by simp at hT ⊢; omega)]
+        have : T - t0 = (T - (t0 + 1)) + 1 := by omega
+        rw [this]; simp
+
+/-- **C03 (replay)**: replaying an atom's rows from its first-frame state reconstructs its
+entire site and inner-site history. -/
+theorem replay_reconstructs (s i : List Int) (h : s.length = i.length) (t : Nat) (ht : t < s.length) :
+    replayAt (s.getD 0 (-1)) (i.getD 0 (-1)) (eventsSpec 0 s i) t = (s.getD t (-1), i.getD t (-1)) := by
+  cases s with
+  | nil => simp at ht
+  | cons a r =>
+    cases i with
+    | nil => simp at h
+    | cons x ir =>
+      have := replay_gen r ir a x 0 t (by simpa using h) (by simpa using ht)
+      simpa [replayAt] using this
+
+/-- non-vacuity: a history with a first-frame change, an inner-only change and a last-frame change -/
+example : eventsAlgo [0, -1, 1, 1, 1, 2] [0, -1, -1, 1, 1, -1]
+    = [⟨0, 0, -1, 0, -1⟩, ⟨1, -1, 1, -1, -1⟩, ⟨2, 1, 1, -1, 1⟩, ⟨4, 1, 2, 1, -1⟩] := by decide
+
+/-! ## previous / next site views -/
+
+theorem ffill_gen : ∀ (rest pre : List Int) (m : Nat) (last : Int),
+    ((m < pre.length ∧ pre.getD m (-1) = last) ∨ (m = 0 ∧ pre = [] ∧ last = -1)) →
+    (ffillIdx pre.length m rest).map (fun i => (pre ++ rest).getD i (-1)) = ffillSpec last rest := by
+  intro rest
+  induction rest with
+  | nil => intro pre m last _; simp [ffillIdx, ffillSpec]
+  | cons x xs ih =>
+    intro pre m last hI
+    have hm : m ≤ pre.length := by
+      rcases hI with h | h
+      · omega
+      · omega
+    have e1 : (pre ++ [x]).length = pre.length + 1 := by simp
+    have e2 : pre ++ [x] ++ xs = pre ++ x :: xs := by simp
+    simp only [ffillIdx, ffillSpec, List.map_cons]
+    by_cases hx : x ≠ -1
+    · rw [if_pos hx, if_pos hx]
+      have hmax : max m pre.length = pre.length := by omega
+      rw [hmax]
+      have IH := ih (pre ++ [x]) pre.length x (Or.inl ⟨by simp, by simp [List.getD_eq_getElem?_getD]⟩)
+      rw [e1, e2] at IH
+      rw [IH]
+      simp [List.getD_eq_getElem?_getD]
+    · rw [if_neg hx, if_neg hx]
+      have hmax : max m 0 = m := by omega
+      rw [hmax]
+      have hx' : x = -1 := by simpa using hx
+      have hI' : m < (pre ++ [x]).length ∧ (pre ++ [x]).getD m (-1) = last := by
+        rcases hI with ⟨h1, h2⟩ | ⟨h1, h2, h3⟩
+        · refine ⟨by simp; omega, ?_⟩
+          rw [← h2]
+          simp [List.getD_eq_getElem?_getD, List.getElem?_append_left h1]
+        · subst h1 h2 h3
+          simp [hx']
+      have IH := ih (pre ++ [x]) m last (Or.inl hI')
+      rw [e1, e2] at IH
+      rw [IH]
+      congr 1
+      rw [← hI'.2, ← e2]
+      simp only [List.getD_eq_getElem?_getD]
+      rw [List.getElem?_append_left hI'.1]
+
+/-- `utils.ffill` (where / arange / maximum.accumulate / take) is "carry the most recent site". -/
+theorem ffillAlgo_eq_spec (arr : List Int) : ffillAlgo arr = ffillSpec (-1) arr := by
+  have := ffill_gen arr [] 0 (-1) (Or.inr ⟨rfl, rfl, rfl⟩)
+  simpa [ffillAlgo] using this
+
+theorem ffillSpec_snoc : ∀ (xs : List Int) (last x : Int),
+    ffillSpec last (xs ++ [x]) =
+      ffillSpec last xs ++ [if x ≠ -1 then x else (ffillSpec last xs).getLastD last] := by
+  intro xs
+  induction xs with
+  | nil =>
+    intro last x
+    simp only [List.nil_append, ffillSpec]
+    split <;> simp
+  | cons y ys ih =>
+    intro last x
+    simp only [List.cons_append, ffillSpec]
+    split
+    · rw [ih, List.getLastD_cons]; simp
+    · rw [ih, List.getLastD_cons]; simp
+
+theorem ffillSpec_reverse : ∀ (arr : List Int), (ffillSpec (-1) arr.reverse).reverse = bfillSpec arr := by
+  intro arr
+  induction arr with
+  | nil => simp [ffillSpec, bfillSpec]
+  | cons x xs ih =>
+    rw [List.reverse_cons, ffillSpec_snoc, List.reverse_append]
+    simp only [bfillSpec, List.reverse_cons, List.reverse_nil, List.nil_append, List.cons_append]
+    rw [← ih]
+    congr 2
+    simp [List.headD_eq_head?_getD]
+
+/-- `utils.bfill` (flip ∘ ffill ∘ flip) is "the next site". -/
+theorem bfillAlgo_eq_spec (arr : List Int) : bfillAlgo arr = bfillSpec arr := by
+  rw [bfillAlgo, ffillAlgo_eq_spec, ffillSpec_reverse]
+
+theorem ffillSpec_get_gen : ∀ (arr : List Int) (last : Int) (t : Nat), t < arr.length →
+    (∃ t', t' ≤ t ∧ arr.getD t' (-1) ≠ -1 ∧ (ffillSpec last arr).getD t (-1) = arr.getD t' (-1) ∧
+        ∀ u, t' < u → u ≤ t → arr.getD u (-1) = -1) ∨
+    ((∀ u, u ≤ t → arr.getD u (-1) = -1) ∧ (ffillSpec last arr).getD t (-1) = last) := by
+  intro arr
+  induction arr with
+  | nil => intro last t ht; simp at ht
+  | cons x xs ih =>
+    intro last t ht
+    cases t with
+    | zero =>
+      by_cases hx : x ≠ -1
+      · left
+        refine ⟨0, Nat.le_refl _, by simpa using hx, ?_, ?_⟩
+        · simp [ffillSpec, hx]
+        · intro u h1 h2; omega
+      · right
+        have hx' : x = -1 := by simpa using hx
+        refine ⟨?_, ?_⟩
+        · intro u hu
+          have : u = 0 := by omega
+          subst this; simpa using hx'
+        · simp [ffillSpec, hx']
+    | succ t =>
+      have ht' : t < xs.length := by simpa using ht
+      by_cases hx : x ≠ -1
+      · have hs : ffillSpec last (x :: xs) = x :: ffillSpec x xs := by simp [ffillSpec, hx]
+        rw [hs]
+        left
+        rcases ih x t ht' with ⟨t', h1, h2, h3, h4⟩ | ⟨h1, h2⟩
+        · refine ⟨t' + 1, by omega, by simpa using h2, by simpa using h3, ?_⟩
+          intro u hu1 hu2
+          cases u with
+          | zero => omega
+          | succ u => simpa using h4 u (by omega) (by omega)
+        · refine ⟨0, by omega, by simpa using hx, by simpa using h2, ?_⟩
+          intro u hu1 hu2
+          cases u with
+          | zero => omega
+          | succ u => simpa using h1 u (by omega)
+      · have hx' : x = -1 := by simpa using hx
+        have hs : ffillSpec last (x :: xs) = last :: ffillSpec last xs := by simp [ffillSpec, hx']
+        rw [hs]
+        rcases ih last t ht' with ⟨t', h1, h2, h3, h4⟩ | ⟨h1, h2⟩
+        · left
+          refine ⟨t' + 1, by omega, by simpa using h2, by simpa using h3, ?_⟩
+          intro u hu1 hu2
+          cases u with
+          | zero => omega
+          | succ u => simpa using h4 u (by omega) (by omega)
+        · right
+          refine ⟨?_, by simpa using h2⟩
+          intro u hu
+          cases u with
+          | zero => simpa using hx'
+          | succ u => simpa using h1 u (by omega)
+
+/-- meaning of the forward fill: the entry at `t` is the site at the greatest `t' ≤ t`
+with a site, and `-1` when there is none. -/
+theorem ffillSpec_get (arr : List Int) (t : Nat) (ht : t < arr.length) :
+    (∃ t', t' ≤ t ∧ arr.getD t' (-1) ≠ -1 ∧ (ffillSpec (-1) arr).getD t (-1) = arr.getD t' (-1) ∧
+        ∀ u, t' < u → u ≤ t → arr.getD u (-1) = -1) ∨
+    ((∀ u, u ≤ t → arr.getD u (-1) = -1) ∧ (ffillSpec (-1) arr).getD t (-1) = -1) := by
+  exact ffillSpec_get_gen arr (-1) t ht
+
+/-- meaning of the backward fill: the entry at `t` is the site at the least `t' ≥ t`
+with a site, and `-1` when there is none. -/
+theorem bfillSpec_get (arr : List Int) (t : Nat) (ht : t < arr.length) :
+    (∃ t', t ≤ t' ∧ t' < arr.length ∧ arr.getD t' (-1) ≠ -1 ∧ (bfillSpec arr).getD t (-1) = arr.getD t' (-1) ∧
+        ∀ u, t ≤ u → u < t' → arr.getD u (-1) = -1) ∨
+    ((∀ u, t ≤ u → u < arr.length → arr.getD u (-1) = -1) ∧ (bfillSpec arr).getD t (-1) = -1) := by
+  induction arr generalizing t with
+  | nil => simp at ht
+  | cons x xs ih =>
+    cases t with
+    | succ t =>
+      have ht' : t < xs.length := by simpa using ht
+      have hs : (bfillSpec (x :: xs)).getD (t + 1) (-1) = (bfillSpec xs).getD t (-1) := by
+        simp [bfillSpec]
+      rw [hs]
+      rcases ih t ht' with ⟨t', h1, h2, h3, h4, h5⟩ | ⟨h1, h2⟩
+      · left
+        refine ⟨t' + 1, by omega, by simpa using h2, by simpa using h3, by simpa using h4, ?_⟩
+        intro u hu1 hu2
+        cases u with
+        | zero => omega
+        | succ u => simpa using h5 u (by omega) (by omega)
+      · right
+        refine ⟨?_, h2⟩
+        intro u hu1 hu2
+        cases u with
+        | zero => omega
+        | succ u => simpa using h1 u (by omega) (by simpa using hu2)
+    | zero =>
+      by_cases hx : x ≠ -1
+      · left
+        refine ⟨0, Nat.le_refl _, by simp, by simpa using hx, by simp [bfillSpec, hx], ?_⟩
+        intro u h1 h2; omega
+      · have hx' : x = -1 := by simpa using hx
+        have hs : (bfillSpec (x :: xs)).getD 0 (-1) = (bfillSpec xs).getD 0 (-1) := by
+          simp [bfillSpec, hx', List.headD_eq_head?_getD, List.head?_eq_getElem?]
+        rw [hs]
+        cases xs with
+        | nil =>
+          right
+          refine ⟨?_, by simp [bfillSpec]⟩
+          intro u hu1 hu2
+          have : u = 0 := by simpa using hu2
+          subst this; simpa using hx'
+        | cons y ys =>
+          rcases ih 0 (by simp) with ⟨t', h1, h2, h3, h4, h5⟩ | ⟨h1, h2⟩
+          · left
+            refine ⟨t' + 1, by omega, by simpa using h2, by simpa using h3, by simpa using h4, ?_⟩
+            intro u hu1 hu2
+            cases u with
+            | zero => simpa using hx'
+            | succ u => simpa using h5 u (by omega) (by omega)
+          · right
+            refine ⟨?_, h2⟩
+            intro u hu1 hu2
+            cases u with
+            | zero => simpa using hx'
+            | succ u => simpa using h1 u (by omega) (by simpa using hu2)
+
+example : ffillAlgo [-1, 2, -1, -1, 0, -1] = [-1, 2, 2, 2, 0, 0] ∧
+          bfillAlgo [-1, 2, -1, -1, 0, -1] = [2, 2, 0, 0, 0, -1] := by decide
+
+/-! ## history: the original `np.roll` formulation (defect D4, repaired by f616709) -/
+
+theorem changes_lt : ∀ (xs : List Int) (t i : Nat), i ∈ changes t xs → i + 1 < t + xs.length := by
+  intro xs
+  induction xs with
+  | nil => intro t i h; simp [changes] at h
+  | cons a r ih =>
+    intro t i h
+    cases r with
+    | nil => simp [changes] at h
+    | cons b rest =>
+      simp only [changes, List.mem_append] at h
+      rcases h with h | h
+      · split at h
+        · simp at h; subst h; simp
+        · simp at h
+      · have := ih (t + 1) i h
+        simp at this ⊢; omega
+
+theorem Roll.roll_eq (h : Int) : ∀ (r : List Int) (a : Int) (t : Nat),
+    Roll.nonzeroFrom t (Roll.neqRollAux h (a :: r)) =
+      changes t (a :: r) ++ (if (a :: r).getLast (by simp) ≠ h then [t + r.length] else []) := by
+  intro r
+  induction r with
+  | nil =>
+    intro a t
+    by_cases hah : a = h <;> simp [Roll.neqRollAux, Roll.nonzeroFrom, changes, hah]
+  | cons b rest ih =>
+    intro a t
+    have := ih b (t + 1)
+    simp only [Roll.neqRollAux, Roll.nonzeroFrom, changes]
+    rw [this]
+    have hl : (a :: b :: rest).getLast (by simp) = (b :: rest).getLast (by simp) := by
+      simp [List.getLast_cons]
+    rw [hl]
+    have ht : t + 1 + rest.length = t + (b :: rest).length := by simp; omega
+    rw [ht]
+    by_cases hab : a = b <;> simp [hab]
+
+/-- when the history has a change, `x != np.roll(x,-1)` → nonzero → "drop the last index if it
+is T−1" returns exactly the true change frames … -/
+theorem Roll.changesAlgo_eq (xs : List Int) (hne : changes 0 xs ≠ []) :
+    Roll.changesAlgo xs = some (changes 0 xs) := by
+  cases xs with
+  | nil => simp [changes] at hne
+  | cons a r =>
+    unfold Roll.changesAlgo
+    simp only [Roll.neqRoll]
+    rw [Roll.roll_eq a r a 0]
+    by_cases hw : (a :: r).getLast (by simp) ≠ a
+    · rw [if_pos hw]
+      simp [Roll.dropWrap, List.getLast?_append]
+    · rw [if_neg hw]
+      simp only [List.append_nil]
+      unfold Roll.dropWrap
+      obtain ⟨l, hl⟩ : ∃ l, (changes 0 (a :: r)).getLast? = some l := by
+        cases hc : (changes 0 (a :: r)).getLast? with
+        | none => simp [List.getLast?_eq_none_iff] at hc; exact absurd hc hne
+        | some l => exact ⟨l, rfl⟩
+      rw [hl]
+      have hmem : l ∈ changes 0 (a :: r) := List.mem_of_getLast? hl
+      have := changes_lt (a :: r) 0 l hmem
+      have hne' : ¬ l = (a :: r).length - 1 := by simp at this ⊢; omega
+      show (if l = (a :: r).length - 1 then some (changes 0 (a :: r)).dropLast else some (changes 0 (a :: r))) = _
+      rw [if_neg hne']
+
+theorem Roll.const_aux (x : Int) : ∀ (n t : Nat),
+    Roll.nonzeroFrom t (Roll.neqRollAux x (List.replicate (n + 1) x)) = [] := by
+  intro n
+  induction n with
+  | zero => intro t; simp [Roll.neqRollAux, Roll.nonzeroFrom]
+  | succ n ih =>
+    intro t
+    have : List.replicate (n + 1 + 1) x = x :: x :: List.replicate n x := by
+      simp [List.replicate_succ]
+    rw [this]
+    simp only [Roll.neqRollAux, Roll.nonzeroFrom]
+    have h2 := ih (t + 1)
+    rw [List.replicate_succ] at h2
+    rw [h2]; simp
+
+/-- … but on a constant history the index array is empty and `[-1]` raises. -/
+theorem Roll.changesAlgo_const (x : Int) (n : Nat) : Roll.changesAlgo (List.replicate n x) = none := by
+  cases n with
+  | zero => simp [Roll.changesAlgo, Roll.neqRoll, Roll.nonzeroFrom, Roll.dropWrap]
+  | succ n =>
+    unfold Roll.changesAlgo
+    rw [List.replicate_succ]
+    simp only [Roll.neqRoll]
+    rw [← List.replicate_succ, Roll.const_aux]
+    simp [Roll.dropWrap]
+
+/-- D4 witness: outer history with a change, inner history constant ⇒ `IndexError`. -/
+theorem Roll.eventsRoll_indexError :
+    (match Roll.eventsRoll [-1, 0] [-1, -1] with | .indexError => true | _ => false) = true := by
+  decide
+
+/-- D4 witness: an atom whose inner site changes while its outer site does not was skipped. -/
+theorem Roll.eventsRoll_skips_inner_only :
+    (match Roll.eventsRoll [0, 0, 0] [0, -1, 0] with | .skip => true | _ => false) = true := by
+  decide
 
 end G.C03
